@@ -14,7 +14,10 @@ claims
   write   a chart -> text: impl text == model tokens rendered (C); Spec.denote(impl text) ~ quantize(chart) and
           OsuMap.read(impl text) ~ quantize(chart) (S)
   cycle   4 write/read generations: every later generation ~ the first written one; text 3 == text 2
-  (write / cycle: half of the cases through write_file + read_file)
+  (write / cycle: half of the cases through write_file + read_file; most charts reach the state they are written from
+  through an ordinary history — Map.Stacker edits (whole column and loc), rate, deepcopy, sort / filter / append on the
+  lists, a round trip through the Quaver or StepMania converters — so that float-typed `column`, int-typed `offset`,
+  object-typed `kiai` and non-default row labels occur; the model works on the values, `normalise(extract(map))`)
 U+2028, U+2029, U+0085, \x0b, \x0c, \x1c-\x1e (line ends for str.splitlines(), not for the format) are placed inside
 metadata values, tags and file names; Python's str.strip() — and the model's `strip` — remove them (and \x1f, \xa0,
 U+3000 ...) only at the ends of a line or value.
@@ -34,7 +37,8 @@ RULE = ("texts of the v14 mania dialect: K in 1..18, x anywhere inside a column'
         "times, type bits with new-combo/colour bits, random hitsound fields, 0-120 objects (thorough 0-300), 0-40 timing "
         "lines mixing bpm/SV of both signs, sample events, metadata with ':' / non-ASCII / leading blanks, CRLF line ends, "
         "extra sections, U+2028/U+2029/U+0085/\\x0b/\\x0c/\\x1c-\\x1e inside values, tags and file names, half of the cases through "
-        "read_file / write_file on a temp file; charts: finite doubles (dyadic stream and arbitrary stream) incl. negative and sub-ms offsets, bpm/SV "
+        "read_file / write_file on a temp file; charts reach their state through histories (stack edits, rate, deepcopy, "
+        "list sort/filter/append, Osu->Qua->Osu, Osu->SM->Osu; float-typed column, int-typed offset, relabelled rows); charts: finite doubles (dyadic stream and arbitrary stream) incl. negative and sub-ms offsets, bpm/SV "
         "of both signs; malformed lines/texts compared on the error class. non-trivial = at least one object or timing line "
         "off the defaults (x off the column centre, fractional/negative time, ':' in a value, malformed field)")
 ASSUMPTIONS = [
@@ -419,6 +423,11 @@ def gen_chart(rng, tier, small=False):
         # numbers that ':g' (6 significant digits) would not keep — the witness domain of the repaired finding D30
         key = rng.choice(["audio_lead_in", "hp_drain_rate", "overall_difficulty", "distance_spacing", "timeline_zoom"])
         meta[key] = rng.choice([1000000, 1234567, 20000000]) if key == "audio_lead_in" else rng.choice([7.1234567, 1 / 3, 0.12345678])
+    if rng.random() < 0.12:
+        # int-typed offsets: every offset of the tempo / SV / note lists is a Python int
+        for lst in (bpms, svs, hits):
+            for r_ in lst:
+                r_["offset"] = int(r_["offset"])
     if rng.random() < 0.02:
         # a romanised title / artist whose transliteration contains a line break (known finding D44)
         meta[rng.choice(["title", "artist"])] = rng.choice(["a\u2028b", "夜\u2029に", "x\u2028"])
@@ -443,8 +452,8 @@ def gen(rng, tier, i):
     if r < 0.60:
         return gen_bad_text(rng, tier)
     if r < 0.85:
-        return dict(claim="write", via=via, chart=gen_chart(rng, tier))
-    return dict(claim="cycle", via=via, chart=gen_chart(rng, tier, small=True))
+        return dict(claim="write", via=via, history=gen_history(rng), chart=gen_chart(rng, tier))
+    return dict(claim="cycle", via=via, history=gen_history(rng), chart=gen_chart(rng, tier, small=True))
 
 
 def corpus():
@@ -503,6 +512,11 @@ def corpus():
     ch2["meta"]["samples"] = [dict(offset=12.9, sample_file='"cl\x1dap.wav"', volume=33)]
     ch2["hits"][1]["hitsound_file"] = "h\x1eit.wav"
     ch2["holds"][0]["hitsound_file"] = "n\u2028m.wav"
+    # history build -> stack edit -> write: `column` is float64 afterwards (stacking pads with NaN); the x of an object
+    # line must still be an integer
+    c.append(dict(claim="write", via="lines", history=[dict(op="stack_add", d=250.0)], chart=chart))
+    c.append(dict(claim="cycle", via="file", history=[dict(op="stack_loc", t=0.0, col="column"), dict(op="rate", by=2.0)],
+                  chart=chart))
     c.append(dict(claim="write", via="file", chart=ch2))
     c.append(dict(claim="cycle", via="file", chart=ch2))
     c.append(dict(claim="cycle", chart=chart))
@@ -540,6 +554,15 @@ def valid(case):
                 return False
             return cl == "badtext" or dialect_ok(case["lines"])
         if cl in ("write", "cycle"):
+            for o in case.get("history", []):
+                if o.get("op") not in HISTORY_OPS:
+                    return False
+                if o["op"] == "rate" and o.get("by") not in (1.0, 2.0, 0.5, 1.25):
+                    return False
+                if o["op"] == "stack_loc" and o.get("col") not in ("column", "offset", "volume"):
+                    return False
+                if any(k in o and not _isnum(o[k]) for k in ("d", "t")):
+                    return False
             return _chart_ok(case["chart"])
         return False
     except Exception:
@@ -622,7 +645,8 @@ def _chart_ok(ch):
     for key in STR_KEYS:
         if not _str_ok(m[key], '"' if key == "background_file_name" else ""):
             return False
-    if not all(_str_ok(t) and t and not any(c.isspace() for c in t) for t in m["tags"]):
+    # a tag is one blank-free word; other white space *inside* it (U+2028, \\x1c …) is kept by `split(" ")`
+    if not all(_str_ok(t) and t and " " not in t for t in m["tags"]):
         return False
     for key in NUM_KEYS:
         if not _isnum(m[key]):
@@ -673,13 +697,113 @@ def build_map(ch):
             m.tags = list(v)
         else:
             setattr(m, key, v)
-    m.hits = I["OsuHitList"]([I["OsuHit"](**dict(h, offset=float(h["offset"]))) for h in ch["hits"]])
-    m.holds = I["OsuHoldList"]([I["OsuHold"](**dict(h, offset=float(h["offset"]), length=float(h["length"])))
+    # an offset given as a Python int stays an int (int-typed `offset` columns occur when every offset of a list is one)
+    off = lambda v: v if isinstance(v, int) and not isinstance(v, bool) else float(v)
+    m.hits = I["OsuHitList"]([I["OsuHit"](**dict(h, offset=off(h["offset"]))) for h in ch["hits"]])
+    m.holds = I["OsuHoldList"]([I["OsuHold"](**dict(h, offset=off(h["offset"]), length=float(h["length"])))
                                 for h in ch["holds"]])
-    m.bpms = I["OsuBpmList"]([I["OsuBpm"](**dict(b, offset=float(b["offset"]), bpm=float(b["bpm"]))) for b in ch["bpms"]])
-    m.svs = I["OsuSvList"]([I["OsuSv"](**dict(b, offset=float(b["offset"]), multiplier=float(b["multiplier"])))
+    m.bpms = I["OsuBpmList"]([I["OsuBpm"](**dict(b, offset=off(b["offset"]), bpm=float(b["bpm"]))) for b in ch["bpms"]])
+    m.svs = I["OsuSvList"]([I["OsuSv"](**dict(b, offset=off(b["offset"]), multiplier=float(b["multiplier"])))
                             for b in ch["svs"]])
     return m
+
+
+HISTORY_OPS = ["stack_add", "stack_zero", "stack_loc", "rate", "deepcopy", "sort", "filter", "append", "via_qua", "via_sm"]
+
+
+def gen_history(rng):
+    """ordinary ways in which a chart reaches the state it is written from"""
+    ops = []
+    for _ in range(rng.choice([0, 1, 1, 2, 3])):
+        op = rng.choice(HISTORY_OPS)
+        if op == "stack_add":
+            ops.append(dict(op=op, d=rng.choice([250.0, -100.0, 0.5, 1000.0])))
+        elif op == "stack_loc":
+            ops.append(dict(op=op, t=rng.choice([0.0, 1000.0, 50000.0]), col=rng.choice(["column", "offset", "volume"])))
+        elif op == "rate":
+            ops.append(dict(op=op, by=rng.choice([1.0, 2.0, 0.5, 1.25])))
+        elif op == "filter":
+            ops.append(dict(op=op, t=rng.choice([-10000.0, 0.0, 1000.0])))
+        else:
+            ops.append(dict(op=op))
+    return ops
+
+
+def apply_history(m, ops):
+    """brings the implementation's chart into the state a user would write it from; returns (map, applied op names).
+    Conversions that the library refuses for this key count are skipped."""
+    I = _imports()
+    done = []
+    for o in ops:
+        op = o["op"]
+        try:
+            if op == "stack_add":
+                st = m.stack()
+                st.offset += o["d"]
+            elif op == "stack_zero":
+                st = m.stack()
+                st.offset += 0
+            elif op == "stack_loc":
+                st = m.stack()
+                st.loc[st.offset > o["t"], o["col"]] += 0
+            elif op == "rate":
+                m = m.rate(o["by"])
+            elif op == "deepcopy":
+                m = m.deepcopy()
+            elif op == "sort":
+                m.hits = m.hits.sorted()
+                m.holds = m.holds.sorted(reverse=True)
+                m.bpms = m.bpms.sorted()
+            elif op == "filter":
+                m.hits = m.hits.after(o["t"], include_end=True)
+                m.holds = m.holds.after(o["t"])
+            elif op == "append":
+                if len(m.hits) > 0:
+                    m.hits = m.hits.append(m.hits[0:1])
+                if len(m.svs) > 1:
+                    m.svs = m.svs.append(m.svs[0], sort=True)
+            elif op == "via_qua":
+                from reamber.algorithms.convert.OsuToQua import OsuToQua
+                from reamber.algorithms.convert.QuaToOsu import QuaToOsu
+                m2 = QuaToOsu.convert(OsuToQua.convert(m))
+                m = m2
+            elif op == "via_sm":
+                from reamber.algorithms.convert.OsuToSM import OsuToSM
+                from reamber.algorithms.convert.SMToOsu import SMToOsu
+                ms = SMToOsu.convert(OsuToSM.convert(m))
+                if not ms:
+                    continue
+                m = ms[0]
+            done.append(op)
+        except Exception:
+            if op in ("via_qua", "via_sm"):
+                continue
+            raise
+    return m, done
+
+
+INT_FIELDS = {"column", "hitsound_set", "sample_set", "addition_set", "custom_set", "volume", "sample_set_index"}
+
+
+def normalise(ch):
+    """the chart as *values*: a float-typed integer is that integer, an object-typed flag is that flag (the model works on
+    values; how the implementation renders a float-typed column is exactly what the text comparison checks)"""
+    def row(r):
+        out = {}
+        for k, v in r.items():
+            if k in INT_FIELDS and isinstance(v, float) and math.isfinite(v) and v == int(v):
+                v = int(v)
+            elif k == "kiai":
+                v = bool(v)
+            out[k] = v
+        return out
+    md = dict(ch["meta"])
+    md["samples"] = [row(r) for r in md["samples"]]
+    for k in G_INT_KEYS + INT_KEYS:
+        if isinstance(md[k], float) and md[k] == int(md[k]):
+            md[k] = int(md[k])
+    return dict(meta=md, bpms=[row(r) for r in ch["bpms"]], svs=[row(r) for r in ch["svs"]], hits=[row(r) for r in ch["hits"]],
+                holds=[row(r) for r in ch["holds"]])
 
 
 def _py(v):
@@ -845,16 +969,31 @@ def cmp_chart(c, impl, lean, what):
     return ok
 
 
-def render(tok_lines):
+def render(tok_lines, ch=None):
+    """instantiates the model's Render parameter with Python's own repr / unidecode.  `f"{x}"` of an int-typed timing
+    offset is `str(int)` — the renderer of that value — which is what `ch` (the chart as the implementation holds it)
+    is consulted for"""
     from unidecode import unidecode
+    int_off = set()
+    if ch is not None:
+        start = next((i for i, l in enumerate(tok_lines) if l and l[0].get("s") == "\n[TimingPoints]"), None)
+        if start is not None:
+            rows = list(ch["bpms"]) + list(ch["svs"])
+            for j, r in enumerate(rows):
+                if isinstance(r["offset"], int) and not isinstance(r["offset"], bool):
+                    int_off.add(start + 1 + j)
     out = []
-    for line in tok_lines:
+    for li, line in enumerate(tok_lines):
         s = ""
-        for t in line:
+        for ti, t in enumerate(line):
             if "s" in t:
                 s += t["s"]
             elif "r" in t:
-                s += repr(float(F(t["r"])))
+                q = F(t["r"])
+                if li in int_off and ti == 0 and q.denominator == 1:
+                    s += str(q.numerator)
+                else:
+                    s += repr(float(q))
             else:
                 s += unidecode(t["u"])
         out.append(s)
@@ -1128,14 +1267,33 @@ def run_write(case, drv, cycle=False):
     via = case.get("via", "lines")
     c_w, c_s, c_r = Cmp(), Cmp(), Cmp()
     tags = ["via-" + via]
+    hist = case.get("history", [])
     try:
         m = build_map(ch)
+        if hist:
+            m, done = apply_history(m, hist)
+            eff = normalise(extract(m))
+            if _chart_ok(eff):
+                ch = eff
+                tags += ["h-" + o for o in done]
+            else:
+                # the history left the domain of the property (e.g. a converter changed the key count to an unsupported
+                # one): write the chart as built
+                m = build_map(ch)
+                tags.append("history-dropped")
+        else:
+            ch = normalise(extract(m))
+        dt = m.hits.df.dtypes.to_dict()
+        if len(m.hits) and str(dt.get("column")) == "float64":
+            tags.append("float-column")
+        if len(m.bpms) and str(m.bpms.df["offset"].dtype).startswith("int"):
+            tags.append("int-offset")
         impl_text = _impl_write_text(m, via)
         impl = ("ok", impl_text)
     except Exception as e:
         impl = ("err", err_class(e))
     wire, boundary = _wire_with_boundary(ch, uni=False)
-    model_text = "\n".join(render(drv.call("c01.write", chart=wire)["ok"]))
+    model_text = "\n".join(render(drv.call("c01.write", chart=wire)["ok"], ch))
     lossy = g_lossy(ch["meta"])
     d102 = D44(ch["meta"])
     if impl[0] == "err":
